@@ -55,4 +55,5 @@ package mline
 //@   aftercall PopAnyway use enqueued_by_addCallCtx(result)
 //@   modifies q.Q.closed, list.List.lmem, list.List.lcnt, list.Element.lrk, list.Element.Value, region($alloc)
 //@   loop 1
+//@     invariant #serial spawned() == old(spawned())
 //@     invariant mlwf(c) && 0 <= index && index < c.slotSize && mq == c.qs[index] && curLane == index
